@@ -274,7 +274,7 @@ reg('C14', plan=plan_c14, level='proof', min_obligations=150,
     assumptions=DISPATCH_ASSUME, design_ref='DESIGN.md §5 C14')
 def plan_c15(tier, seed):
     return {'verus': [('u_dispatch', {})]}
-reg('C15', plan=plan_c15, level='proof', min_obligations=100,
+reg('C15', plan=plan_c15, level='proof', min_obligations=60,
     title='Unspecified metadata resolved deterministically; labels match content',
     technique='Verus: the mpv heuristic as postcondition of guess_*/fix_unspecified_data for all usize sizes; label = content as a postcondition over uninterpreted stage functions applied to the STORED metadata',
     text='Unbounded proof: guess_matrix_coefficients, guess_color_primaries and fix_unspecified_data equal the documented heuristic transcribed from the statement for every width/height, never return Unspecified; Yuv::new stores exactly the resolved config; '
@@ -296,3 +296,102 @@ reg('C03', plan=plan_c03, level='proof', min_obligations=100,
     note='; '.join(DISPATCH_ASSUME[-4:]) + '; the macro-generated flatten loop applies the scalar to every component (bounded Kani harness flatten_len_*). ' + TOOLS,
     assumptions=DISPATCH_ASSUME[-4:], not_decided=['accuracy of every curve against its defining formula on [0,1] (2.5e-4 / 5.7e-4)', 'constants of the curves against the standards'],
     design_ref='DESIGN.md §5 C03')
+KX = ('src/rgb_xyb.rs', 'k_rgb_xyb.rs', 'verif_kani_rgb_xyb')
+
+# ------------------------------------------------------------------------------------------- C04 / C05 (XYB)
+XYB_ND = ['the per-image glue of linear_rgb_to_xyb / xyb_to_linear_rgb (iterator loops: clamp at 0, cbrtf, bias subtraction, un-mix, cube, inline mat-vec) is not under contract (a one-pixel relational Kani query with six symbolic cbrtf did not finish in 25 min)',
+          'accuracy of cbrtf (see C18) and f32 rounding: the 2e-6 / 5e-5 budgets are not machine-checked']
+def plan_c04(tier, seed):
+    hs = [H('opsin_total', domain='all f32 triples', desc='opsin_absorbance + mixed_to_xyb: no panic/overflow'),
+          H('opsin_unit_cube_positive', domain='[0,1]^3', desc='mixes finite, >= 0.003 (normal positive argument for cbrtf), <= 1.01')]
+    return {'verus': [('u_xyb', {})], 'kani': [{'crate_dir': '', 'inject': [KX], 'harnesses': hs}]}
+reg('C04', plan=plan_c04, level='proof', min_obligations=60,
+    title='Linear RGB->XYB: opsin mix and X/Y/B mixing equal the JPEG XL definition (cube-root glue and budget not decided)',
+    technique='Verus exact-real contracts on the real opsin_absorbance / mixed_to_xyb and the extracted constants vs the libjxl digits of the statement',
+    text='Exact-real proof (Verus) on the real kernels: opsin_absorbance(rgb)[i] = sum_j A[i][j]*rgb[j] + b over the code\'s own constants, which equal libjxl\'s matrix within 1e-7 and bias within 1e-8, '
+         'with every row summing to exactly 1 and three equal biases; mixed_to_xyb(m) = ((m0-m1)/2, (m0+m1)/2, m2). Bit-precise (Kani) totality and positivity of the mixes on the unit cube. '
+         'NOT decided: the clamp/cbrtf/bias glue inside the per-image loop and the 2e-6 budget.',
+    note=EXACT + '; ' + BITPRECISE + '. ' + TOOLS, assumptions=[EXACT, BITPRECISE], not_decided=XYB_ND, design_ref='DESIGN.md §5 C04')
+def plan_c05(tier, seed):
+    hs = [H('xyb_inverse_one_pixel_total', bounded='Vec length 1', domain='one pixel, all f32 triples', desc='xyb_to_linear_rgb total (no panic/overflow), length preserved')]
+    return {'verus': [('u_xyb', {})], 'kani': [{'crate_dir': '', 'inject': [KX], 'harnesses': hs}]}
+reg('C05', plan=plan_c05, level='proof', min_obligations=40,
+    title='XYB->linear RGB: the inverse literals invert the forward literals (loop body and budget not decided)',
+    technique='Verus exact-rational lemma over the extracted constants: residual INV*A - I has row sums <= 3e-6; NEG bias = -bias',
+    text='Exact proof (Verus, rational arithmetic on the literals extracted from the source on every run) that E = INVERSE_OPSIN_ABSORBANCE_MATRIX * OPSIN_ABSORBANCE_MATRIX - I has |E_ij| <= 1e-6 for all entries and that '
+         'NEG_OPSIN_ABSORBANCE_BIAS = -OPSIN_ABSORBANCE_BIAS: with an ideal cube root the exact round trip of p in [0,1]^3 is p + E*p, error <= 3e-6 < 5e-5, so the inverse agrees with the forward constants rather than a stale set. '
+         'A changed significant digit of any of the 18 literals breaks a residual lemma. NOT decided: the loop body of xyb_to_linear_rgb and f32 rounding / cbrtf accuracy.',
+    note=EXACT + '. ' + TOOLS, assumptions=[EXACT], not_decided=XYB_ND, design_ref='DESIGN.md §5 C05')
+
+# ------------------------------------------------------------------------------------------- C06
+PRIMS = ['bt470m', 'bt470bg', 'st170m', 'st240m', 'film', 'bt2020', 'st428', 'p3dci', 'p3display', 'tech3213']
+def plan_c06(tier, seed):
+    hs = []
+    for p in PRIMS:
+        hs += [H(f'prim_{p}_to709', domain='input-free', desc=f'{p} -> BT.709: images of e1,e2,e3 within 1e-5 of the columns of M_out^-1*Bradford*M_in (f64, H.273 chromaticities); white -> white; there-and-back'),
+               H(f'prim_709_to_{p}', domain='input-free', desc=f'BT.709 -> {p}: same checks')]
+    hs.append(H('prim_same_is_identity', domain='one symbolic pixel (all f32 triples)', desc='identical primaries: bit-exact identity'))
+    return {'verus': [('u_dispatch', {}), ('u_matrix', {})], 'kani': [{'crate_dir': '', 'inject': [KC], 'harnesses': hs}]}
+reg('C06', plan=plan_c06, level='proof', min_obligations=1000,
+    title='Primaries conversion equals the CIE derivation and keeps white white',
+    technique='Kani input-free bit-precise evaluation of the real transform_primaries on the basis and white for all 10 non-trivial primaries x 2 directions against the f64 CIE/Bradford derivation; Verus: composition structure, in-place pointwise map, identity clause, exact linearity of mul_arr',
+    text='Complete (input-free, rounding included) bit-precise proof that for every supported primaries set P and both directions the real transform_primaries maps e1,e2,e3 to the columns of M_out^-1*Bradford(white_in->white_out)*M_in '
+         '(computed in f64 from the H.273 chromaticities written in the harness) within 1e-5, maps (1,1,1) to (1,1,1) within 1e-5 and returns the basis after there-and-back within 1e-5 (BT.709 itself is the identity case); '
+         'Verus proves that ONE matrix, composed as gamut_xyz_to_rgb(out)*white_point_adaptation(in,out)*gamut_rgb_to_xyz(in), is applied to every pixel in place, that equal primaries return the very same Vec (bit-exact), '
+         'and (U-matrix) that mul_arr is the exact linear map, so the basis images determine every pixel with error scaling with |v|. NOT proved: f32 rounding of mul_arr for arbitrary pixels.',
+    note=BITPRECISE + '; ' + EXACT + ' for linearity; ' + '; '.join(DISPATCH_ASSUME[-4:-2]) + '. ' + TOOLS,
+    assumptions=[BITPRECISE, EXACT] + DISPATCH_ASSUME[-4:-2],
+    not_decided=['f32 rounding of the per-pixel product for arbitrary pixels of [-0.5,2]^3 (linear extension of the basis checks; 3 products + 2 sums of magnitude <= 4 add <= ~1e-6)'],
+    design_ref='DESIGN.md §5 C06')
+
+# ------------------------------------------------------------------------------------------- C13
+def plan_c13(tier, seed):
+    hs = [H(n, domain='v: all 2^32 f32 bit patterns', desc='emitted luma and chroma codes <= 2^n-1') for n in depth_names('codes_valid', 'thorough')]
+    hs += [H('hsl_total', domain='all f32 triples'), H('hsl_finite', domain='[0,1]^3', desc='finite outputs'), H('hsl_to_lrgb_total', domain='all f32 triples'),
+           H('opsin_total', domain='all f32 triples'), H('opsin_unit_cube_positive', domain='[0,1]^3'),
+           H('xyb_inverse_one_pixel_total', bounded='Vec length 1', domain='one pixel, all f32 triples')]
+    return {'verus': [('u_dispatch', {})],
+            'kani': [{'crate_dir': 'yuvxyb-math', 'inject': MATH_INJECT, 'harnesses': math_totality_harnesses() + [H('powf_unit_interval_finite', domain='x in [0,1], y in [0,80]', desc='finite, non-negative')]},
+                     {'crate_dir': '', 'inject': [YR, KT, KH, KL, KX], 'harnesses': hs + [h for h in transfer_total_harnesses() if not h.bounded]}]}
+reg('C13', plan=plan_c13, level='proof', min_obligations=1500,
+    title='Conversions are total on arbitrary float data and always emit valid codes',
+    technique='Kani loop-free harnesses over all f32 bit patterns for every scalar kernel (default checks = overflow/debug-assertion semantics + UB); Verus: ypbpr_to_ycbcr emits only codes <= 2^n-1 and its Yuv::new(..).unwrap() cannot fail; no unwrap/expect on any conversion path',
+    text='Complete bit-precise proof (Kani) for every scalar kernel - the 20 transfer-curve scalars, powf/expf/exp2/log2/cbrtf, lrgb_to_hsl, hsl_to_lrgb, opsin_absorbance, mixed_to_xyb, from_f32_luma/chroma - over ALL f32 inputs (NaN, +-inf, subnormals, huge): '
+         'no panic, no arithmetic/shift overflow, no invalid float->int conversion; emitted codes <= 2^n-1 for every depth/range/storage; finite [0,1] inputs give finite outputs. Unbounded proof (Verus) that the encoder loop stores only such codes, '
+         'that the constructor then accepts the frame (unwrap cannot panic) and that every conversion body is panic-free given the kernels (the image conversions are maps of the kernels, C11). The XYB per-image loops are covered only for one pixel (bounded).',
+    note=BITPRECISE + '; ' + '; '.join(PLANES_ASSUME) + '; supported configuration = bit depth 8..16, subsampling shifts < 64, dimensions multiples of the subsampling (otherwise ypbpr_to_ycbcr panics by design). ' + TOOLS,
+    assumptions=[BITPRECISE] + PLANES_ASSUME, not_decided=['XYB per-image loops beyond one pixel'], design_ref='DESIGN.md §5 C13')
+
+# ------------------------------------------------------------------------------------------- C16
+def plan_c16(tier, seed):
+    hs = [H(n, domain='input-free', desc='chroma mid code -> 0.0 exactly, black -> 0.0 exactly, white within 1e-6 of 1') for n in depth_names('anchors', 'thorough')]
+    hs += [H(f'neutral_{m}', domain='y: every f32 in [0,1], cb=cr=0', desc='R=G=B spread <= 5e-7 through the real decode matrix') for m in MATS]
+    hs += [H(f'encrows_{m}', domain='input-free', desc='encode luma row sums to 1, chroma rows to 0 (bit-precise, <= 1.2e-7)') for m in MATS]
+    hs += [H('hsl_grey', domain='g in [0,1]', desc='grey -> (0,0,g) exactly')]
+    hs += [H(f'anchor_{c}', domain='input-free', desc='f(0) ~ 0, f(1) ~ 1') for c in
+           ['rec_1886_eotf', 'rec_1886_inverse_eotf', 'rec_470m_oetf', 'rec_470m_inverse_oetf', 'rec_470bg_oetf', 'rec_470bg_inverse_oetf',
+            'xvycc_eotf', 'xvycc_inverse_eotf', 'srgb_eotf', 'srgb_inverse_eotf', 'st_2084_inverse_oetf', 'st_2084_oetf']]
+    hs += [H(f'prim_{p}_to709', domain='input-free', desc='white -> white within 1e-5 (greys follow by linearity)') for p in PRIMS]
+    return {'verus': [('u_color', {}), ('u_xyb', {})], 'kani': [{'crate_dir': '', 'inject': [YR, KC, KT, KH], 'harnesses': hs}]}
+reg('C16', plan=plan_c16, level='proof', min_obligations=3000,
+    title='The neutral axis and the black/white anchors survive every stage',
+    technique='Kani bit-precise: anchors of the code<->float maps (all depths/ranges/storage), R=G=B for every luma value through the 7 real decode matrices, HSL grey, curve anchors, white->white for all primaries; Verus exact: encode rows sum to (1,0,0), opsin rows sum to 1 with equal biases',
+    text='Complete bit-precise proof (Kani): chroma code 2^(n-1) -> 0.0 exactly, black code -> 0.0 exactly, white code within 1e-6 of 1 for every depth 8..16, range, storage; for each of the 7 matrices and EVERY f32 luma in [0,1] neutral chroma decodes to R=G=B '
+         'with spread <= 5e-7; grey -> HSL (0,0,g) exactly; f(0) within 1e-6 of 0 and f(1) within budget of 1 for the 12 powf-based curves; white -> white within 1e-5 for every primaries conversion. Exact-real proof (Verus): luma row sums to 1 and chroma rows to 0 '
+         'for every Kr,Kb; opsin rows sum to 1 with equal biases, so grey gives X=0, Y=B and black (0,0,0) under an ideal cube root. The XYB grey clauses under f32 rounding (|X|<=1e-6) and the log/HLG curve anchors are not decided.',
+    note=BITPRECISE + '; ' + EXACT + '. ' + TOOLS, assumptions=[BITPRECISE, EXACT],
+    not_decided=['XYB grey/black clauses under f32 rounding (depend on cbrtf)', 'anchors of HLG (std ln/sqrt) and of the log curves (excluded by the statement)'], design_ref='DESIGN.md §5 C16')
+
+# ------------------------------------------------------------------------------------------- C10 (bounded only)
+def plan_c10(tier, seed):
+    hs = [H(f'grid10_{c}', bounded='10-bit code grid x = c/1023, c = 0..1023 (all 1024 points symbolic)', domain='c in 0..=1023', timeout=1500,
+            desc='|to_gamma(to_linear(x)) - x| < 2.5e-4 (PQ 5.7e-4) through the real scalar pair') for c in ['bt1886', 'bt470m', 'bt470bg', 'srgb', 'xvycc', 'pq']]
+    return {'kani': [{'crate_dir': '', 'inject': [KT], 'harnesses': hs, 'timeout': 3000}]}
+reg('C10', plan=plan_c10, level='model_checking', min_obligations=0,
+    title='Gamma->linear->gamma on the 10-bit grid (bounded stand-in; nothing counted as proved)',
+    technique='bounded Kani/CBMC: the real scalar curve pair composed on every point of the 10-bit code grid (1024 symbolic codes per curve), bit-precise',
+    text='BOUNDED stand-in, not a proof of the property: for the six curve families built on the repo\'s own powf (BT.1886 family, BT.470M, BT.470BG, sRGB, xvYCC, PQ) every 10-bit grid value x = c/1023 passes through the real to_linear then to_gamma scalars '
+         'and returns within 2.5e-4 (PQ: 5.7e-4). The statement quantifies over all f32 in [0,1]; values between grid points, HLG and the log curves (std ln/log10, which CBMC over-approximates) and Linear (identity, proved under C03) are outside this check.',
+    note='bounded: 1024 grid points per curve; ' + BITPRECISE + '. ' + TOOLS,
+    assumptions=[BITPRECISE, 'grid only: not a proof for all f32 in [0,1]'],
+    not_decided=['all f32 in [0,1] between grid points', 'HLG, Log100, Log316 (CBMC libm models imprecise)'], design_ref='DESIGN.md §5 C10')
